@@ -654,7 +654,7 @@ func init() {
 				w.Pty.SetWidth(240) // wide terminal: C17's wrapping concerns do not leak in
 			}
 		},
-		Rule: "case k: a declaration mixing hidden/visible options (25%), groups (20%, nested) and commands (25%) to depth 3, options without short name in nested groups of sub-commands, default masks (incl. '-') whose real defaults are unique tokens, env keys under nested env-namespaces with 3 delimiters, choices, value names, described positionals, 1-5 sub-commands (both usage-line forms); generator = {help, help, man}[k mod 3]; a random active chain of visible commands selected by really parsing '<words> --help' (ErrHelp message) or by setting Active and calling WriteHelp. " +
+		Rule: "1 case in 16: a parser built through the API only (options registered with AddOption carrying Description, Hidden, Default, DefaultMask; parser / namespaced group / command homes): help (before any parse, with and without Active) and man page show every visible one with description and default or mask, no hidden one and no masked default. case k: a declaration mixing hidden/visible options (25%), groups (20%, nested) and commands (25%) to depth 3, options without short name in nested groups of sub-commands, default masks (incl. '-') whose real defaults are unique tokens, env keys under nested env-namespaces with 3 delimiters, choices, value names, described positionals, 1-5 sub-commands (both usage-line forms); generator = {help, help, man}[k mod 3]; a random active chain of visible commands selected by really parsing '<words> --help' (ErrHelp message) or by setting Active and calling WriteHelp. " +
 			"Oracle over unique-id tokens: every visible option along the chain has a row with its -s, --ns.long, =VALUE, [c1|c2], description, (default: ...) or mask and [$ENVKEY]; every described positional and every visible sub-command of the innermost command (aliases beside its description) is listed; tokens of hidden options/groups/commands and the real value of a masked default occur nowhere; the man page obeys the same visibility rule over the whole tree. distinct = (generator, chain length, route, #rows, #sub-commands).",
 		Assumptions: []string{"'the man page does the same' is read as the visibility-and-completeness claim for names, value name, description, default and aliases (the man format has no slot for choices)", "rows of a visible group nested in a hidden group are not required (nor forbidden); chains through hidden commands are not generated except in the history cases", "short names of hidden options cannot be checked for absence (a single rune is not a unique token)"},
 		Technique:   "runtime presence/absence monitor over unique-id tokens in the generated help text and man page; multi-step histories on one parser with direct oracles",
